@@ -90,6 +90,15 @@ pub struct Field {
     /// error for such a mismatch.
     #[serde(default)]
     pub type_width: Option<u32>,
+    /// order of the attribute arguments (the parser accepts any): 0 = range, access, stride;
+    /// 1 = range, stride, access; 2 = access, range, stride; 3 = stride, range, access;
+    /// 4 = access, stride, range; 5 = stride, access, range
+    #[serde(default)]
+    pub attr_order: u8,
+    /// exhaustive enums only: declaration order of the variants. 0 = ascending discriminants;
+    /// otherwise the k-th declared variant has discriminant (k * (rot | 1) + rot) mod 2^W
+    #[serde(default)]
+    pub variant_rot: u32,
 }
 
 impl Field {
@@ -154,6 +163,14 @@ impl Field {
     /// width of the declared field type (differs from `width()` only in class-C probes)
     pub fn value_width(&self) -> u32 {
         self.type_width.unwrap_or_else(|| self.width())
+    }
+    /// discriminants of an exhaustive enum field in declaration order
+    pub fn exhaustive_variants(&self) -> Vec<u128> {
+        let w = self.value_width();
+        let n = 1u128 << w;
+        let step = (self.variant_rot | 1) as u128;
+        let rot = self.variant_rot as u128;
+        (0..n).map(|k| if self.variant_rot == 0 { k } else { (k * step + rot) % n }).collect()
     }
     /// values that may be written through this field: None = any pattern of `value_width()`
     /// bits, Some = listed
@@ -493,7 +510,7 @@ fn gen_field(rng: &mut Rng, n: u32, idx: usize, arb_only: bool) -> Option<Field>
         } else {
             place_parts(rng, &[w], n, bias_top, bias_bottom)
         };
-        return Some(Field { name, kind, ranges, array: None, access, qualified, type_width: None });
+        return Some(Field { name, kind, ranges, array: None, access, qualified, type_width: None, attr_order: 0, variant_rot: 0 });
     }
 
     if !multi {
@@ -525,6 +542,8 @@ fn gen_field(rng: &mut Rng, n: u32, idx: usize, arb_only: bool) -> Option<Field>
             access,
             qualified,
             type_width: None,
+            attr_order: 0,
+            variant_rot: 0,
         });
     }
 
@@ -560,6 +579,8 @@ fn gen_field(rng: &mut Rng, n: u32, idx: usize, arb_only: bool) -> Option<Field>
                 access,
                 qualified,
                 type_width: None,
+                attr_order: 0,
+                variant_rot: 0,
             };
             if allow_overlap || !f.self_overlap() {
                 return Some(f);
@@ -613,7 +634,17 @@ pub fn gen_layout(rng: &mut Rng, id: u32, o: GenOpts) -> Layout {
             access: Access::RW,
             qualified: false,
             type_width: None,
+            attr_order: 0,
+            variant_rot: 0,
         });
+    }
+    for f in fields.iter_mut() {
+        if rng.chance(30, 100) {
+            f.attr_order = rng.below(6) as u8;
+        }
+        if f.kind == Kind::EnumExh && rng.chance(60, 100) {
+            f.variant_rot = rng.range(1, 255) as u32;
+        }
     }
     // guarantee at least one writable and one readable field so every layout can do some work
     if !fields.iter().any(|f| f.access.writable()) {
@@ -653,7 +684,7 @@ fn probe(id: u32, n: u32, name: &str, fields: Vec<Field>, default: bool) -> Layo
 }
 
 fn fld(name: &str, kind: Kind, ranges: Vec<(u32, u32)>, array: Option<Arr>) -> Field {
-    Field { name: name.into(), kind, ranges, array, access: Access::RW, qualified: false, type_width: None }
+    Field { name: name.into(), kind, ranges, array, access: Access::RW, qualified: false, type_width: None, attr_order: 0, variant_rot: 0 }
 }
 
 fn kind_for_width(w: u32, rng: &mut Rng) -> Kind {
@@ -686,8 +717,12 @@ pub fn gen_probes(rng: &mut Rng, n: u32, first_id: u32) -> Vec<Layout> {
         return out;
     }
     let mut id = first_id;
-    let mut push = |out: &mut Vec<Layout>, name: &str, fields: Vec<Field>, rng: &mut Rng| {
+    let mut push = |out: &mut Vec<Layout>, name: &str, mut fields: Vec<Field>, rng: &mut Rng| {
         let d = rng.chance(1, 2);
+        // a bounds check may live where one particular argument is parsed: vary the order
+        if rng.chance(45, 100) {
+            fields[0].attr_order = rng.below(6) as u8;
+        }
         out.push(probe(id, n, name, fields, d));
         id += 1;
     };
@@ -905,6 +940,8 @@ pub fn gen_mismatch_probes(rng: &mut Rng, n: u32, first_id: u32, at_top: bool) -
             access: Access::W,
             qualified: false,
             type_width: Some(tw),
+            attr_order: 0,
+            variant_rot: 0,
         }];
         if hi + 1 < n {
             let top = (hi + (tw - w)).min(n - 1);
@@ -1058,6 +1095,34 @@ mod tests {
                         _ => {}
                     }
                 }
+            }
+        }
+    }
+}
+
+#[cfg(test)]
+mod variant_order_tests {
+    use super::*;
+    #[test]
+    fn exhaustive_variant_orders_are_permutations() {
+        for w in 1..=8u32 {
+            for rot in 0..256u32 {
+                let f = Field {
+                    name: "e".into(),
+                    kind: Kind::EnumExh,
+                    ranges: vec![(0, w - 1)],
+                    array: None,
+                    access: Access::RW,
+                    qualified: false,
+                    type_width: None,
+                    attr_order: 0,
+                    variant_rot: rot,
+                };
+                let mut v = f.exhaustive_variants();
+                assert_eq!(v.len(), 1 << w);
+                v.sort();
+                v.dedup();
+                assert_eq!(v.len(), 1 << w, "w={w} rot={rot}");
             }
         }
     }
